@@ -42,14 +42,14 @@ BOUNDS = {
 OUTSIDE = ["1FC9 binding frames (covered under C20)", "commands built by the public constructors are covered through their logged equivalents here and by C03's header clause",
            "requests whose code has no logged RQ/W frame in tests/"]
 STUBS = ["ProtocolContext -> recording object (set_state records the transition; _protocol.hgi_id = the symbolic gateway id)"]
-ASSUMPTIONS = ["context positions (independent table): payload[:2] for the indexed codes, [:4] for 0005/000C, [:2]+[10:12] for 0404, [4:6] for 0418 and 3220"]
+ASSUMPTIONS = ["context positions (independent table): payload[:2] for the indexed codes, [:4] for 0005/000C, [:4]+[10:12] for 0404 (zone index, schedule kind 20/23, fragment number), [4:6] for 0418 and 3220"]
 MIN_CONCLUSIVE_FRACTION = 0.8
 DTM = "2023-01-01T00:00:00.000000"
 HGI = "18:000730"
 NULL_0418 = "000000B0000000000000000000007FFFFF7000000000"  # the controller's 'no such log entry' reply
 
 # codes whose request carries a context, and where (independent of the code's own tables)
-CTX_POS = {"0005": [(0, 4)], "000C": [(0, 4)], "0404": [(0, 2), (10, 12)], "0418": [(4, 6)], "3220": [(4, 6)]}
+CTX_POS = {"0005": [(0, 4)], "000C": [(0, 4)], "0404": [(0, 4), (10, 12)], "0418": [(4, 6)], "3220": [(4, 6)]}  # 0404: zone idx + schedule kind (20 zone / 23 DHW), fragment
 ZONE_IDX_CODES = {"0004", "000A", "12B0", "2309", "2349", "30C9", "3150", "0008", "0009", "22C9"}  # (1100 carries a context only for the FC domain)
 
 
@@ -177,7 +177,7 @@ def constructors():
         "get_tpi_params": (BDR, lambda s, t: C.get_tpi_params(BDR)),
         "get_system_log_entry": (CTL, lambda s, t: C.get_system_log_entry(CTL, s.int(t + "log", 0, 63))),
         "get_opentherm_data": (OTB, lambda s, t: C.get_opentherm_data(OTB, s.choice(t + "msg", [0, 3, 5, 17, 18, 25, 56, 57, 115, 127]))),
-        "get_schedule_fragment": (CTL, lambda s, t: C.get_schedule_fragment(CTL, s.hx(t + "z"), s.choice(t + "frag", [1, 2, 3]), s.choice(t + "tot", [0, 3]))),
+        "get_schedule_fragment": (CTL, lambda s, t: C.get_schedule_fragment(CTL, ("HW" if s.choice(t + "kind", ["dhw", "zone"]) == "dhw" else s.hx(t + "z")), s.choice(t + "frag", [1, 2, 3]), s.choice(t + "tot", [0, 3]))),
         "set_zone_setpoint": (CTL, lambda s, t: C.set_zone_setpoint(CTL, s.hx(t + "z"), 19.5)),
         "set_zone_mode": (CTL, lambda s, t: C.set_zone_mode(CTL, s.hx(t + "z"), mode="follow_schedule")),
         "set_zone_name": (CTL, lambda s, t: C.set_zone_name(CTL, s.hx(t + "z"), "Kitchen")),
@@ -301,6 +301,33 @@ def h_correlate(ctx, f, pay, reply_pay, nsym, miss, ctor=None):
         we.pkt_rcvd(rpkt)
         ctx.check(len(c.trans) == 1 and c.trans[0][0] == "IsInIdle" and c.trans[0][1] is rpkt, "C06:reply-before-echo-recognised-and-returned", info=str(c.trans)[:80])
         return "early-reply"
+    if miss == "late":
+        # ---- a wait expired and the command was transmitted again (the context makes a new WantEcho from the
+        # state it was in); the device's reply to the first transmission then arrives before the new echo: it is
+        # still this command's reply, addressed to the gateway's real id
+        if not expects_reply or reply_pay is None:
+            return "no-reply-due"
+        prev = we
+        if symx.choice(ctx, "resent_after", ["echo-wait", "reply-wait"]) == "reply-wait":
+            echo = _pkt(_frame(verb, gw, dev, "--:------", code, payload))
+            we.pkt_rcvd(echo)
+            if not c.trans or c.trans[0][0] != "WantRply":
+                return "late:no-reply-state"
+            prev = F.WantRply(c)
+            c._state = prev
+        c.trans.clear()
+        we2 = F.WantEcho(c)  # ProtocolContext.set_state(WantEcho, timed_out=True)
+        c._state = we2
+        we2.cmd_sent(cmd, is_retry=True)  # ProtocolContext._send_cmd(cmd, is_retry=True)
+        rp = reply_payload(syms)
+        try:
+            rpkt = _pkt(_frame(rverb, dev, gw, "--:------", code, rp))
+        except (exc.PacketInvalid, ValueError):
+            return "reply-not-a-packet"
+        we2.pkt_rcvd(rpkt)
+        ctx.check(len(c.trans) == 1 and c.trans[0][0] == "IsInIdle" and c.trans[0][1] is rpkt, "C06:late-reply-after-a-retransmission-recognised", info=str(c.trans)[:80])
+        # ... and the echo of the retransmission is recognised as well when it comes first
+        return "late-reply"
     if miss is None:
         # ---- the echo, as the gateway reports it (real id substituted)
         echo = _pkt(_frame(verb, gw, dev, "--:------", code, payload))
@@ -409,15 +436,15 @@ def queries(tier, seed):
         seen.add(key + (n,))
         tag = f"{f['verb']}|{f['code']}|{len(pay) // 2}#{n}"
         nsym = 16 if thorough else 8
-        for miss in (None, "early", "context", "code", "verb", "device"):
+        for miss in (None, "early", "late", "context", "code", "verb", "device"):
             prm = {"h": "correlate", "f": f, "pay": pay, "reply": reply, "nsym": nsym, "miss": miss}
-            qs.append(Query(f"{'match' if miss is None else ('early' if miss == 'early' else 'miss-' + miss)}[{tag}]", lambda c, a=(f, pay, reply, nsym, miss): h_correlate(c, *a), prm, group="match" if miss in (None, "early") else "miss", max_secs=300 if thorough else 90, max_paths=50_000,
+            qs.append(Query(f"{'match' if miss is None else (miss if miss in ('early', 'late') else 'miss-' + miss)}[{tag}]", lambda c, a=(f, pay, reply, nsym, miss): h_correlate(c, *a), prm, group="match" if miss in (None, "early", "late") else "miss", max_secs=300 if thorough else 90, max_paths=50_000,
                             mode=("bv" if f["code"] == "3220" and False else "int"), weight=len(pay) / 20 + 1))
 
     for name in constructors():
-        for miss in (None, "early", "context", "code", "verb", "device"):
+        for miss in (None, "early", "late", "context", "code", "verb", "device"):
             prm = {"h": "correlate", "f": None, "pay": None, "reply": None, "nsym": 8, "miss": miss, "ctor": name}
-            qs.append(Query(f"{'match' if miss is None else ('early' if miss == 'early' else 'miss-' + miss)}[{name}]", lambda c, a=(None, None, None, 8, miss, name): h_correlate(c, *a), prm, group="match" if miss in (None, "early") else "miss", max_secs=300 if thorough else 90, max_paths=50_000, weight=3))
+            qs.append(Query(f"{'match' if miss is None else (miss if miss in ('early', 'late') else 'miss-' + miss)}[{name}]", lambda c, a=(None, None, None, 8, miss, name): h_correlate(c, *a), prm, group="match" if miss in (None, "early", "late") else "miss", max_secs=300 if thorough else 90, max_paths=50_000, weight=3))
 
     def canary(c):
         # a reply for another zone must not be claimed recognised
@@ -485,6 +512,23 @@ def replay(item):
         we.pkt_rcvd(rpkt)
         if not (len(c.trans) == 1 and c.trans[0][0] == "IsInIdle" and c.trans[0][1] is rpkt):
             bad.append(f"reply {r_line!r} (hdr {rpkt._hdr}) arriving before the echo is not accepted: {[t[0] for t in c.trans]}")
+        return {"reproduced": bool(bad), "observed": (desc + "; ".join(bad))[:700], "signature": f"{verb}|{code}: {label.split(':', 1)[1]}"}
+    if miss == "late":
+        prev = we
+        how = cex.get("resent_after", "reply-wait")
+        if how == "reply-wait":
+            we.pkt_rcvd(_pkt(_frame(verb, gw, dev, "--:------", code, payload)))
+            prev = F.WantRply(c)
+            c._state = prev
+        c.trans.clear()
+        we2 = F.WantEcho(c)
+        c._state = we2
+        we2.cmd_sent(cmd, is_retry=True)
+        r_line = _frame(rverb, dev, gw, "--:------", code, reply_payload(syms))
+        rpkt = _pkt(r_line)
+        we2.pkt_rcvd(rpkt)
+        if not (len(c.trans) == 1 and c.trans[0][0] == "IsInIdle" and c.trans[0][1] is rpkt):
+            bad.append(f"after a retransmission (the {how} expired) the reply {r_line!r} (hdr {rpkt._hdr}) arriving before the new echo is not accepted: {[t[0] for t in c.trans]}")
         return {"reproduced": bool(bad), "observed": (desc + "; ".join(bad))[:700], "signature": f"{verb}|{code}: {label.split(':', 1)[1]}"}
     if miss is None:
         e_line = _frame(verb, gw, dev, "--:------", code, payload)
